@@ -79,7 +79,9 @@ void MetaOptimizer::doInit(const ParameterList& parameters)
       string pname = optDesc_->getParameterNames(i)[j];
       if (parameters.hasParameter(pname))
       {
-        optParameters_[i].addParameter(parameters.parameter(pname));
+        // Use the optimizer's own copy, to which the constraint policy has been applied
+        // (the original parameters keep their constraints even when the policy is to ignore them).
+        optParameters_[i].addParameter(getParameters().parameter(pname));
       }
     }
     nbParameters_[i] = optParameters_[i].size();
